@@ -298,6 +298,16 @@ def make_env_expr(bindings):
     return m
 
 
+def limit_memory(gb=4):
+    """the real code computes `int << n` and `[bit0]*n` literally: bound the address space so that such inputs
+    end in MemoryError instead of the OOM killer.  Call after the Lean driver has been spawned."""
+    import resource
+    try:
+        resource.setrlimit(resource.RLIMIT_AS, (gb << 30, gb << 30))
+    except (ValueError, OSError):
+        pass
+
+
 class CaseTimeout(BaseException):
     pass
 
@@ -306,7 +316,7 @@ def _alarm(signum, frame):
     raise CaseTimeout()
 
 
-def outcome(f, seconds=5.0):
+def outcome(f, seconds=2.0):
     """run f → ["ok", dump(with smask), str, size] or ["raise", class] or ["timeout"] (wall-clock guard:
     the real code computes `int << n` and `[bit0]*n` literally)."""
     import signal
